@@ -7,7 +7,7 @@ from .. import gens, refmodel
 
 RULE = ("Cases: Hypothesis signals of length 3..400 (quick) / 3..2000 (thorough) from all families (noise, random walk, "
         "multi-tone + trend, AM/FM, integer-valued/plateau, constant, ramp, edge-plateau; short noisy signals "
-        "over-weighted) x stop rule x step size x {splrep,pchip,mono_pchip} x pad_width 1..5, max_imfs=None, no "
+        "over-weighted; stored as float64, float32, int64 or int16) x stop rule x step size x {splrep,pchip,mono_pchip} x pad_width 1..5, max_imfs=None, no "
         "energy threshold, default sift_thresh. Oracle: result is a finite [N x K] array or the documented "
         "EMDSiftCovergeError; unless sum|last column| < sift_thresh: max|sum_k imf_k - x| <= 1e-9*max|x| and the "
         "last column has < 2 strict interior maxima or < 2 strict interior minima. Exit paths of every extraction "
@@ -52,13 +52,14 @@ def long_case():
 
 def oracle(case, rec):
     import emd
-    x = gens.sig_of(case['sig'])
+    xin = gens.sig_of(case['sig'])          # possibly float32 / integer dtype
+    x = xin.astype(float)
     eo = {'interp_method': case['interp']}
     xo = {'pad_width': case['pad']}
     opts = dict(case['opts'])
     thresh = 1e-8
     try:
-        imf = emd.sift.sift(x.copy(), imf_opts=dict(opts), envelope_opts=dict(eo), extrema_opts=dict(xo))
+        imf = emd.sift.sift(xin.copy(), imf_opts=dict(opts), envelope_opts=dict(eo), extrema_opts=dict(xo))
     except emd.support.EMDSiftCovergeError:
         rec.cls('outcome=convergence-error')
         return False
@@ -72,6 +73,7 @@ def oracle(case, rec):
     K = imf.shape[1]
     rec.cls('K=%s' % (K if K < 6 else '6-10' if K <= 10 else '11+'))
     rec.cls('family=' + case['sig'].get('family', 'elementwise'))
+    rec.cls('dtype=' + case['sig'].get('dtype', 'f8'))
     # exit path of each extraction, measured independently on the residuals
     exits = []
     if x.size <= 200:
@@ -85,7 +87,7 @@ def oracle(case, rec):
         return K >= 2
     scale = np.abs(x).max()
     err = np.abs(imf.sum(axis=1) - x).max()
-    if err > 1e-9 * scale + 1e-300:
+    if err > (1e-9 if xin.dtype != np.float32 else 1e-6) * scale + 1e-300:
         path = 'after-extrema-vanished' if 'extrema-vanished' in exits else 'other'
         raise Violation('C01/sift/components-do-not-sum-to-input/' + path,
                         'max error %.3g (scale %.3g), K=%d, exits=%r, opts=%r, n=%d' % (err, scale, K, exits, opts, x.size))
